@@ -82,24 +82,40 @@ inductive PutResp
   | body (es : List RespEntry)
   | panicked
 
-/-- the PUT loop: unknown ids are skipped; the entry's effect on its characteristic is C12's `putEntry` -/
+def statusNoResource : Int := -70409    -- hap.StatusResourceDoesNotExist
+
+/-- the PUT loop (F75): EVERY entry of the request gets an entry in the answer — an id that is not served the status
+    -70409 (it was skipped without a word), the others the status of C12's `putEntry` (0 when it succeeded) -/
 def putLoop : Db → List PutReq → List RespEntry → Db × Option (List RespEntry)
   | db, [], acc => (db, some acc)
   | db, r :: rs, acc =>
     match lookup db r.aid r.iid with
-    | none => putLoop db rs acc
+    | none => putLoop db rs (acc ++ [⟨r.aid, r.iid, .nil, some statusNoResource⟩])
     | some e =>
       match putEntry ⟨e.chr, e.sub⟩ ⟨r.value, r.ev⟩ with
       | (s1, .panic, _) => (setFirst db r.aid r.iid (fun e => { e with chr := s1.char, sub := s1.sub }), none)
       | (s1, .ok, st) =>
         putLoop (setFirst db r.aid r.iid (fun e => { e with chr := s1.char, sub := s1.sub })) rs
-          (acc ++ (st.toList.map fun code => ⟨r.aid, r.iid, .nil, some code⟩))
+          (acc ++ [⟨r.aid, r.iid, .nil, some (st.getD 0)⟩])
 
+/-- no content when every entry succeeded, otherwise the multi-status answer (207) with all entries -/
 def putChars (db : Db) (rs : List PutReq) : Db × PutResp :=
   match putLoop db rs [] with
   | (db', none) => (db', .panicked)
-  | (db', some []) => (db', .noContent204)
-  | (db', some es) => (db', .body es)
+  | (db', some es) => if es.all (fun e => e.status == some 0) then (db', .noContent204) else (db', .body es)
+
+/-- before the repair: unknown ids skipped, only the entries that failed an event subscription answered -/
+def putLoopOld : Db → List PutReq → List RespEntry → Db × Option (List RespEntry)
+  | db, [], acc => (db, some acc)
+  | db, r :: rs, acc =>
+    match lookup db r.aid r.iid with
+    | none => putLoopOld db rs acc
+    | some e =>
+      match putEntry ⟨e.chr, e.sub⟩ ⟨r.value, r.ev⟩ with
+      | (s1, .panic, _) => (setFirst db r.aid r.iid (fun e => { e with chr := s1.char, sub := s1.sub }), none)
+      | (s1, .ok, st) =>
+        putLoopOld (setFirst db r.aid r.iid (fun e => { e with chr := s1.char, sub := s1.sub })) rs
+          (acc ++ ((st.filter (· == statusNoEvents)).toList.map fun code => ⟨r.aid, r.iid, .nil, some code⟩))
 
 /-- hap.chunkedWriter.Write: the body is handed to the response writer in pieces of at most `n` bytes -/
 def chunkedWrite (n : Nat) (p : Bytes) : List Bytes := chunks n p
